@@ -3,6 +3,8 @@ import ComposeVerif.Spec.Override
 import ComposeVerif.Lemmas.Path
 import ComposeVerif.Lemmas.Merge
 import ComposeVerif.Lemmas.Unicity
+import ComposeVerif.Lemmas.Reset
+import ComposeVerif.Neg.C04
 /-!
 # C04 — multiple files and documents merge by the Compose override rules
 
@@ -395,5 +397,68 @@ theorem multiDoc_eq_multiFile (post : Val → Out Val) (docs : List YNode) (dict
   | cons d r ih =>
     simp only [List.flatten_cons, List.flatten_nil, List.append_nil, List.map_cons, List.singleton_append] at ih ⊢
     rw [← ih]
+
+/-! ## 6. `!reset` and `!override` -/
+
+/-- **`!reset` removes the attribute**: a mapping entry tagged `!reset` is dropped from the document, its path is
+recorded, `Apply` deletes that key from the model merged so far, and the merge cannot bring it back — whatever the
+base held there, at any depth `p` -/
+theorem reset_removes (n : Nat) (p : TPath) (k : String) (x : YNode) (ht : x.tag = .reset)
+    (es : List (String × YNode)) (hnd : (es.map Prod.fst).Nodup) (hmem : (k, x) ∈ es)
+    (paths : List TPath) (hsub : ∀ q ∈ (resolveMap es p).2, q ∈ paths) (a m : KVs)
+    (h : mergeKVs n (applyKVs paths a p) (decodeKV (resolveMap es p).1) p = .ok m) : lookup k m = none := by
+  obtain ⟨hgone, hrec⟩ := resolveMap_reset p k x ht es hnd hmem
+  have hdel := applyKVs_removed paths p k (matchesAny_of_mem (hsub _ hrec)) a
+  exact merge_no_new_keys n _ _ m p (resolveMap_keys_nodup p es hnd) h k hdel hgone
+
+/-- **`!override` replaces without merging**: the entry stays in the document as written, the base's value at that
+key is deleted first, so the result is the override's value itself — no append, no key-wise merge -/
+theorem override_replaces (n : Nat) (p : TPath) (k : String) (x : YNode) (ht : x.tag = .override)
+    (es : List (String × YNode)) (hnd : (es.map Prod.fst).Nodup) (hmem : (k, x) ∈ es)
+    (paths : List TPath) (hsub : ∀ q ∈ (resolveMap es p).2, q ∈ paths) (a m : KVs)
+    (h : mergeKVs n (applyKVs paths a p) (decodeKV (resolveMap es p).1) p = .ok m) : lookup k m = some (decode x) := by
+  obtain ⟨hkept, hrec⟩ := resolveMap_override p k x ht es hnd hmem
+  have hdel := applyKVs_removed paths p k (matchesAny_of_mem (hsub _ hrec)) a
+  exact merge_new_key_added n _ _ m p (resolveMap_keys_nodup p es hnd) h k _ hdel hkept
+
+/-- keys whose path matches no recorded path survive `Apply` (frame of `!reset` / `!override`) -/
+theorem reset_frame (paths : List TPath) (p : TPath) (k : String) (h : matchesAny paths (next p k) = false) (a : KVs) :
+    lookup k (applyKVs paths a p) = (lookup k a).map fun e => applyNull paths e (next p k) :=
+  applyKVs_kept paths p k h a
+
+/-- without tags nothing is deleted -/
+theorem apply_no_paths (p : TPath) : ∀ a : KVs, (∀ k v, (k, v) ∈ a → applyNull [] v (next p k) = v) → applyKVs [] a p = a := by
+  intro a
+  induction a with
+  | nil => intro _; rfl
+  | cons hd tl ih =>
+    obtain ⟨k, v⟩ := hd
+    intro h
+    simp only [applyKVs, matchesAny, List.any_nil, Bool.false_eq_true, if_false]
+    rw [h k v (by simp), ih (fun k' v' hm => h k' v' (by simp [hm]))]
+
+-- non-vacuity: a two-document stream where the second document resets `ports` and overrides `dns`
+example :
+    loadDocs .ok (.map [("services", .map [("web", .map [("image", .str "nginx"), ("ports", .seq [.str "80"]), ("dns", .seq [.str "1.1.1.1"])])])])
+      [.map .none [("services", .map .none [("web", .map .none [("ports", .scalar .reset .null), ("dns", .seq .override [.scalar .none (.str "9.9.9.9")])])])]]
+    = .ok (.map [("services", .map [("web", .map [("image", .str "nginx"), ("dns", .seq [.str "9.9.9.9"])])])]) := by rfl
+
+/-! ## 7. Index keys -/
+
+/-- the key of a long-syntax port whose `published`, `host_ip` and `protocol` are strings and whose target is an integer
+(`port_key_spelling_independent` — the same key when `published` is written as an integer — is false, see `Neg/C04.lean`) -/
+theorem port_key_partial (kvs : KVs) (t : Int) (pub host proto : String)
+    (ht : lookup "target" kvs = some (.int t)) (hp : lookup "published" kvs = some (.str pub))
+    (hh : lookup "host_ip" kvs = some (.str host)) (hpr : lookup "protocol" kvs = some (.str proto)) :
+    index .port (.map kvs) = .ok (host ++ ":" ++ pub ++ ":" ++ toString t ++ "/" ++ proto) := by
+  simp [index, ht, hp, hh, hpr, sprintArg]
+
+/-- a short-syntax volume and a long-syntax volume with the same target share their key -/
+theorem volume_key_long (kvs : KVs) (t : String) (ht : lookup "target" kvs = some (.str t)) :
+    index .volume (.map kvs) = .ok t := by
+  simp [index, ht]
+
+example : index .volume (.str "./src:/data:ro") = .ok "/data" ∧ index .volume (.map [("type", .str "volume"), ("target", .str "/data")]) = .ok "/data" := by
+  constructor <;> rfl
 
 end CV.C04
